@@ -236,7 +236,7 @@ func runBuilds(slots []wk.Slot, choice []int, order int, r *kit.Result) {
 }
 
 func main() {
-	ops := hist.Ops()
+	ops := hist.FeatureOps()
 	kit.Main(&kit.Check{
 		ID: "C37", Level: "exploration",
 		Rule: "Part A: every choice of one variant per slot of the worldkit menu extended with invalid variants x source order, built in five build modes (order-independent modes once); non-trivial = the source holds a feature that is invalid as given; distinct by menu choice. Part B: the C13 search (world kind x seed x first op; breadth-first over accepted AddFeature ops, deduplicated by private state), the validator run at every state and after every attempt (AddFeature accepted or rejected, MergedChange applied or failing). Oracle: independent validator over EachFeature: paths >= 2 points, every point resolves to a location, paths closed by reference form valid counter-clockwise loops, areas name only existing closed paths of >= 3 points (a boundary closed only by coordinates must be a valid counter-clockwise loop too).",
